@@ -657,6 +657,10 @@ static bool ratLP(Ctx& c)
 {
    return c.M->_rationalLP != nullptr && c.M->intParam(SoPlex::SYNCMODE) != SoPlex::SYNCMODE_ONLYREAL;
 }
+static bool autoSync(Ctx& c)
+{
+   return c.M->_rationalLP != nullptr && c.M->intParam(SoPlex::SYNCMODE) == SoPlex::SYNCMODE_AUTO;
+}
 static double INF(Ctx& c)
 {
    return c.M->realParam(SoPlex::INFTY);
@@ -871,7 +875,6 @@ static bool opAddRowReal(Ctx& c)
    c.M->addRowReal(LPRowBase<double>(lo, row, hi));
    if(nz == 0) sink().count("args.zero_nonzeros");
    if(nnz > nz) sink().count("args.nnonzeros_larger_than_needed");
-   if(len > c.M->numCols() - 0 && false) {}
    post(c, F_addRowReal);
    return true;
 }
@@ -977,6 +980,14 @@ static bool opChangeVecReal(Ctx& c, VecKind kind)
          b[(size_t)i] = hi;
       }
    }
+   if(autoSync(c))      // the exact images of the new values must keep lhs <= rhs / lower <= upper in the rational LP too
+      for(int i = 0; i < dim; i++)
+      {
+         if(kind == VK_LHS && Rational(a[(size_t)i]) > c.M->rhsRational(i)) return false;
+         if(kind == VK_RHS && Rational(a[(size_t)i]) < c.M->lhsRational(i)) return false;
+         if(kind == VK_LOWER && Rational(a[(size_t)i]) > c.M->upperRational(i)) return false;
+         if(kind == VK_UPPER && Rational(a[(size_t)i]) < c.M->lowerRational(i)) return false;
+      }
    InArr<double> pa(a), pb(b);
    Fn f;
    switch(kind)
@@ -1053,6 +1064,13 @@ static bool opChangeOneReal(Ctx& c, OneKind kind)
    int i = g.range(0, dim - 1);
    double lo, hi;
    pickRangeD(g, INF(c), lo, hi);
+   if(autoSync(c))
+   {
+      if(kind == OK_ROWLHS && Rational(std::min(lo, c.M->rhsReal(i))) > c.M->rhsRational(i)) return false;
+      if(kind == OK_ROWRHS && Rational(std::max(hi, c.M->lhsReal(i))) < c.M->lhsRational(i)) return false;
+      if(kind == OK_VARLOWER && Rational(std::min(lo, c.M->upperReal(i))) > c.M->upperRational(i)) return false;
+      if(kind == OK_VARUPPER && Rational(std::max(hi, c.M->lowerReal(i))) < c.M->lowerRational(i)) return false;
+   }
    Fn f;
    switch(kind)
    {
@@ -1594,9 +1612,7 @@ static bool opObjValueRationalString(Ctx& c, bool documentedFree = false)
       p = SoPlex_objValueRationalString(c.H);
    }
    std::string expect = c.M->objValueRational().str();
-   g_track = (int)F_objValueRationalString;     // the release of the block belongs to this call's balance
    checkString(c, F_objValueRationalString, p, expect, documentedFree);
-   g_track = -1;
    post(c, F_objValueRationalString);
    return true;
 }
@@ -1620,4 +1636,567 @@ static bool opGetPrimalRationalString(Ctx& c, bool documentedFree = false)
    post(c, F_getPrimalRationalString);
    return true;
 }
-//@@OPS@@
+// ---- files
+static std::string slurp(const std::string& p, bool& ok)
+{
+   std::ifstream f(p, std::ios::binary);
+   ok = (bool)f;
+   std::ostringstream o;
+   o << f.rdbuf();
+   return o.str();
+}
+static bool opWriteFileReal(Ctx& c)
+{
+   const char* ext = c.g.chance(0.5) ? ".lp" : ".mps";
+   std::string fh = c.newFile(ext), fm = c.newFile(ext);
+   char* name = heapStr(fh);
+   {
+      Call _(c, F_writeFileReal);
+      SoPlex_writeFileReal(c.H, name);
+   }
+   free(name);
+   c.M->writeFile(fm.c_str());
+   bool ok1, ok2;
+   std::string a = slurp(fh, ok1), b = slurp(fm, ok2);
+   if(ok1 != ok2 || a != b) viol(c, F_writeFileReal, "file-mismatch", "file written through the C interface differs from the file written by C++ writeFile (" +
+                                    std::to_string(a.size()) + " vs " + std::to_string(b.size()) + " bytes)");
+   else if(ok1)
+   {
+      c.lastInstFile = fh;
+      sink().count("files.written_equal");
+   }
+   post(c, F_writeFileReal);
+   return true;
+}
+static std::string randomLPText(Rng& g)
+{
+   int n = g.range(1, 4), m = g.range(0, 3);
+   std::ostringstream o;
+   o << (g.chance(0.5) ? "Minimize\n obj:" : "Maximize\n obj:");
+   for(int j = 0; j < n; j++) o << " + " << g.range(0, 5) << " x" << j;
+   o << "\nSubject To\n";
+   for(int i = 0; i < m; i++)
+   {
+      o << " c" << i << ":";
+      for(int j = 0; j < n; j++) if(g.chance(0.7)) o << (g.chance(0.5) ? " + " : " - ") << g.range(1, 9) << (g.chance(0.3) ? ".5" : "") << " x" << j;
+      o << " + 1 x0 " << (g.chance(0.5) ? "<= " : ">= ") << g.range(-5, 20) << "\n";
+   }
+   o << "Bounds\n";
+   for(int j = 0; j < n; j++) if(g.chance(0.6)) o << " " << g.range(-3, 0) << " <= x" << j << " <= " << g.range(1, 8) << "\n";
+   o << "End\n";
+   return o.str();
+}
+static bool opReadInstanceFile(Ctx& c)
+{
+   Rng& g = c.g;
+   std::string path;
+   int t = g.range(0, 9);
+   if(t == 0) path = cli.tmpdir + "/c20_does_not_exist.lp";
+   else if(t <= 4 && !c.lastInstFile.empty()) path = c.lastInstFile;
+   else
+   {
+      path = c.newFile(".lp");
+      std::ofstream f(path);
+      f << randomLPText(g);
+   }
+   char* name = heapStr(path);
+   int r;
+   {
+      Call _(c, F_readInstanceFile);
+      r = SoPlex_readInstanceFile(c.H, name);
+   }
+   bool w = c.M->readFile(name);
+   free(name);
+   sink().count(std::string("ret.readInstanceFile.") + std::to_string(r));
+   if(r != (int)w) viol(c, F_readInstanceFile, "return-mismatch", "SoPlex_readInstanceFile = " + std::to_string(r) + ", C++ readFile = " + std::to_string((int)w));
+   post(c, F_readInstanceFile);
+   return true;
+}
+static bool opReadBasisFile(Ctx& c)
+{
+   Rng& g = c.g;
+   std::string path;
+   if(c.M->hasBasis() && g.chance(0.8))
+   {
+      path = c.newFile(".bas");
+      c.M->writeBasisFile(path.c_str());
+   }
+   else if(!c.lastBasisFile.empty() && g.chance(0.7)) path = c.lastBasisFile;
+   else path = cli.tmpdir + "/c20_does_not_exist.bas";
+   c.lastBasisFile = path;
+   char* name = heapStr(path);
+   int r;
+   {
+      Call _(c, F_readBasisFile);
+      r = SoPlex_readBasisFile(c.H, name);
+   }
+   bool w = c.M->readBasisFile(name);
+   free(name);
+   sink().count(std::string("ret.readBasisFile.") + std::to_string(r));
+   if(r != (int)w) viol(c, F_readBasisFile, "return-mismatch", "SoPlex_readBasisFile = " + std::to_string(r) + ", C++ readBasisFile = " + std::to_string((int)w));
+   post(c, F_readBasisFile);
+   return true;
+}
+static bool opReadSettingsFile(Ctx& c)
+{
+   Rng& g = c.g;
+   std::string path;
+   int t = g.range(0, 9);
+   if(t == 0) path = cli.tmpdir + "/c20_does_not_exist.set";
+   else if(t <= 5)
+   {
+      path = c.newFile(".set");
+      c.M->saveSettingsFile(path.c_str(), g.chance(0.5));
+   }
+   else
+   {
+      path = c.newFile(".set");
+      std::ofstream f(path);
+      f << "# written by h_capi\nint:iterlimit = " << g.range(5, 900) << "\nbool:lifting = " << (g.chance(0.5) ? "true" : "false") << "\nreal:feastol = 1e-"
+        << g.range(5, 8) << "\nint:pricer = " << g.range(0, 5) << "\n";
+   }
+   char* name = heapStr(path);
+   int r;
+   {
+      Call _(c, F_readSettingsFile);
+      r = SoPlex_readSettingsFile(c.H, name);
+   }
+   bool w = c.M->loadSettingsFile(name);
+   free(name);
+   sink().count(std::string("ret.readSettingsFile.") + std::to_string(r));
+   if(r != (int)w) viol(c, F_readSettingsFile, "return-mismatch", "SoPlex_readSettingsFile = " + std::to_string(r) + ", C++ loadSettingsFile = " + std::to_string((int)w));
+   post(c, F_readSettingsFile);
+   return true;
+}
+
+// ------------------------------------------------------------------------------------------------ histories
+// functions whose defects (if any) abort the process: exercised only in their own short "focus" cases, so that the
+// histories of all other functions stay alive
+static const std::vector<Fn>& riskyFns()
+{
+   static const std::vector<Fn> r = {F_getRowVectorRational};
+   return r;
+}
+static bool isRisky(Fn f)
+{
+   for(Fn r : riskyFns()) if(r == f) return true;
+   return false;
+}
+struct OpEnt
+{
+   Fn f;
+   double w;
+   std::function<bool(Ctx&)> run;
+};
+static const std::vector<OpEnt>& opTable()
+{
+   static const std::vector<OpEnt> t =
+   {
+      {F_setIntParam, 2.0, [](Ctx & c) { return opSetIntParam(c); }},
+      {F_setBoolParam, 1.0, opSetBoolParam},
+      {F_setRealParam, 1.0, opSetRealParam},
+      {F_getIntParam, 1.0, opGetIntParam},
+      {F_setRational, 0.4, opSetRational},
+      {F_numRows, 1.0, [](Ctx & c) { return opNumRowsCols(c, true); }},
+      {F_numCols, 1.0, [](Ctx & c) { return opNumRowsCols(c, false); }},
+      {F_addRowReal, 2.5, opAddRowReal},
+      {F_addColReal, 2.5, opAddColReal},
+      {F_removeRowReal, 0.8, opRemoveRowReal},
+      {F_removeColReal, 0.8, opRemoveColReal},
+      {F_clearLPReal, 0.3, opClearLPReal},
+      {F_changeObjReal, 1.0, [](Ctx & c) { return opChangeVecReal(c, VK_OBJ); }},
+      {F_changeLhsReal, 1.0, [](Ctx & c) { return opChangeVecReal(c, VK_LHS); }},
+      {F_changeRhsReal, 1.0, [](Ctx & c) { return opChangeVecReal(c, VK_RHS); }},
+      {F_changeRangeReal, 1.0, [](Ctx & c) { return opChangeVecReal(c, VK_RANGE); }},
+      {F_changeBoundsReal, 1.0, [](Ctx & c) { return opChangeVecReal(c, VK_BOUNDS); }},
+      {F_changeLowerReal, 1.0, [](Ctx & c) { return opChangeVecReal(c, VK_LOWER); }},
+      {F_changeUpperReal, 1.0, [](Ctx & c) { return opChangeVecReal(c, VK_UPPER); }},
+      {F_changeRowLhsReal, 1.0, [](Ctx & c) { return opChangeOneReal(c, OK_ROWLHS); }},
+      {F_changeRowRhsReal, 1.0, [](Ctx & c) { return opChangeOneReal(c, OK_ROWRHS); }},
+      {F_changeRowRangeReal, 1.0, [](Ctx & c) { return opChangeOneReal(c, OK_ROWRANGE); }},
+      {F_changeVarBoundsReal, 1.0, [](Ctx & c) { return opChangeOneReal(c, OK_VARBOUNDS); }},
+      {F_changeVarLowerReal, 1.0, [](Ctx & c) { return opChangeOneReal(c, OK_VARLOWER); }},
+      {F_changeVarUpperReal, 1.0, [](Ctx & c) { return opChangeOneReal(c, OK_VARUPPER); }},
+      {F_addRowRational, 2.5, opAddRowRational},
+      {F_addColRational, 2.5, opAddColRational},
+      {F_changeObjRational, 1.5, [](Ctx & c) { return opChangeVecRational(c, 0); }},
+      {F_changeLhsRational, 1.5, [](Ctx & c) { return opChangeVecRational(c, 1); }},
+      {F_changeRhsRational, 1.5, [](Ctx & c) { return opChangeVecRational(c, 2); }},
+      {F_changeVarBoundsRational, 1.5, opChangeVarBoundsRational},
+      {F_optimize, 4.0, opOptimize},
+      {F_getStatus, 1.0, [](Ctx & c) { return opScalarGetter(c, F_getStatus); }},
+      {F_getSolvingTime, 1.0, [](Ctx & c) { return opScalarGetter(c, F_getSolvingTime); }},
+      {F_getNumIterations, 1.0, [](Ctx & c) { return opScalarGetter(c, F_getNumIterations); }},
+      {F_objValueReal, 1.0, [](Ctx & c) { return opScalarGetter(c, F_objValueReal); }},
+      {F_basisRowStatus, 1.0, [](Ctx & c) { return opBasisStatus(c, true); }},
+      {F_basisColStatus, 1.0, [](Ctx & c) { return opBasisStatus(c, false); }},
+      {F_getPrimalReal, 1.2, [](Ctx & c) { return opSolVecReal(c, F_getPrimalReal); }},
+      {F_getDualReal, 1.2, [](Ctx & c) { return opSolVecReal(c, F_getDualReal); }},
+      {F_getRedCostReal, 1.2, [](Ctx & c) { return opSolVecReal(c, F_getRedCostReal); }},
+      {F_getLowerReal, 1.0, [](Ctx & c) { return opColVecGetter(c, F_getLowerReal); }},
+      {F_getUpperReal, 1.0, [](Ctx & c) { return opColVecGetter(c, F_getUpperReal); }},
+      {F_getObjReal, 1.0, [](Ctx & c) { return opColVecGetter(c, F_getObjReal); }},
+      {F_getRowVectorReal, 1.2, opGetRowVectorReal},
+      {F_getRowBoundsReal, 1.0, opGetRowBoundsReal},
+      {F_getRowBoundsRational, 1.5, opGetRowBoundsRational},
+      {F_getRowVectorRational, 3.0, opGetRowVectorRational},
+      {F_objValueRationalString, 1.0, [](Ctx & c) { return opObjValueRationalString(c); }},
+      {F_getPrimalRationalString, 1.0, [](Ctx & c) { return opGetPrimalRationalString(c); }},
+      {F_writeFileReal, 0.7, opWriteFileReal},
+      {F_readInstanceFile, 0.7, opReadInstanceFile},
+      {F_readBasisFile, 0.7, opReadBasisFile},
+      {F_readSettingsFile, 0.6, opReadSettingsFile},
+   };
+   return t;
+}
+
+static void randomStep(Ctx& c)
+{
+   const auto& T = opTable();
+   int n = c.M->numCols(), m = c.M->numRows();
+   for(int attempt = 0; attempt < 30; attempt++)
+   {
+      double tot = 0;
+      std::vector<double> w(T.size());
+      for(size_t i = 0; i < T.size(); i++)
+      {
+         double x = T[i].w;
+         Fn f = T[i].f;
+         if(isRisky(f)) x = (c.focus == (int)f) ? 6.0 : 0.0;
+         bool adds = f == F_addRowReal || f == F_addColReal || f == F_addRowRational || f == F_addColRational;
+         if(adds && (n < 2 || m < 2)) x *= 4.0;         // build something first
+         if(f == F_optimize && (n == 0 || m == 0)) x *= 0.15;
+         w[i] = x;
+         tot += x;
+      }
+      double r = c.g.unit() * tot;
+      size_t pick = 0;
+      for(size_t i = 0; i < T.size(); i++)
+      {
+         if(r < w[i])
+         {
+            pick = i;
+            break;
+         }
+         r -= w[i];
+         pick = i;
+      }
+      if(T[pick].run(c)) return;
+   }
+}
+
+static void leakAudit(Ctx& c)
+{
+#if VL_ASAN
+   sink().count("leak.audits");
+   if(g_lt_overflow) sink().count("leak.table_overflow");
+   if(g_lt_live == 0) return;
+   std::map<int, std::pair<long, long>> byFn;      // fn -> (blocks, bytes)
+   for(size_t i = 0; i < LT_SIZE; i++) if(g_lt[i].key > 1)
+      {
+         byFn[g_lt[i].fn].first++;
+         byFn[g_lt[i].fn].second += g_lt[i].size;
+      }
+   int leaks = __lsan_do_recoverable_leak_check();      // the table holds masked pointers only: it keeps nothing alive
+   for(auto& kv : byFn)
+   {
+      std::string d = std::to_string(kv.second.first) + " block(s), " + std::to_string(kv.second.second) + " byte(s) allocated inside " + FN[kv.first] +
+                      " are still allocated after SoPlex_free";
+      if(leaks) viol(c, (Fn)kv.first, "leak", d + " and LeakSanitizer reports unreachable memory");
+      else sink().count("leak.survivors_reachable");
+   }
+   for(size_t i = 0; i < LT_SIZE; i++) if(g_lt[i].key > 1) __lsan_ignore_object((const void*)(g_lt[i].key ^ LT_MASK));
+#else
+   (void)c;
+#endif
+}
+
+static void finishCase(Ctx& c)
+{
+   opFree(c);
+   for(auto& f : c.files) unlink(f.c_str());
+   leakAudit(c);
+   sink().seen("nontrivial", c.seqhash);
+   sink().seen("history_lengths", (uint64_t)c.ncalls);
+}
+
+static void startHistory(Ctx& c)
+{
+#if VL_ASAN
+   ltReset();
+#endif
+   opCreate(c);
+   if(c.dead) return;
+   opSetIntParam(c, SoPlex::VERBOSITY, 0);
+   opSetIntParam(c, SoPlex::ITERLIMIT, 2000);
+}
+
+// general history: mode prologue, then random valid calls
+static void caseGeneral(Ctx& c, const std::string& mode)
+{
+   Rng& g = c.g;
+   startHistory(c);
+   if(c.dead) return;
+   if(mode == "rational") opSetRational(c);
+   else if(mode == "auto") opSetIntParam(c, SoPlex::SYNCMODE, SoPlex::SYNCMODE_AUTO);
+   else if(mode == "manual") opSetIntParam(c, SoPlex::SYNCMODE, SoPlex::SYNCMODE_MANUAL);
+   if(g.chance(0.5)) opSetIntParam(c, SoPlex::OBJSENSE, g.chance(0.5) ? -1 : 1);
+   while(c.room() && c.ncalls < c.maxCalls - 1) randomStep(c);
+}
+
+// the C test program (tests/c_interface/main.c), call by call, with the values it asserts; returned strings are
+// released with free() as the header documents
+static void caseCTest(Ctx& c, int part)
+{
+   startHistory(c);
+   if(c.dead) return;
+   auto expectD = [&](const char* what, double got, double want)
+   {
+      if(got != want) viol(c, "ctest", what, std::string("the C test program expects ") + ds(want) + ", got " + ds(got));
+   };
+   double infty = 10e+20;
+   if(part == 0 || part == 1)
+   {
+      opSetIntParam(c, 0, -1);
+      if(part == 0)
+      {
+         std::vector<double> e1 = {-1.0}, e2 = {1.0}, lhs = {-10.0};
+         InArr<double> a1(e1), a2(e2), al(lhs);
+         {
+            Call _(c, F_addColReal);
+            SoPlex_addColReal(c.H, a1.p, 1, 1, 1.0, 0.0, infty);
+         }
+         DSVectorBase<double> c1(2), c2(2);
+         c1.add(0, -1.0);
+         c2.add(0, 1.0);
+         c.M->addColReal(LPColBase<double>(1.0, c1, infty, 0.0));
+         post(c, F_addColReal);
+         {
+            Call _(c, F_addColReal);
+            SoPlex_addColReal(c.H, a2.p, 1, 1, 1.0, -infty, infty);
+         }
+         c.M->addColReal(LPColBase<double>(1.0, c2, infty, -infty));
+         post(c, F_addColReal);
+         opNumRowsCols(c, true);
+         opNumRowsCols(c, false);
+         {
+            Call _(c, F_changeLhsReal);
+            SoPlex_changeLhsReal(c.H, al.p, 1);
+         }
+         c.M->changeLhsReal(toVec(lhs));
+         post(c, F_changeLhsReal);
+      }
+      else
+      {
+         std::vector<double> r1 = {-1.0, 1.0}, lb = {0.0, -infty}, ub = {infty, infty}, obj = {1.0, 1.0};
+         InArr<double> ar(r1), alb(lb), aub(ub), ao(obj);
+         {
+            Call _(c, F_addRowReal);
+            SoPlex_addRowReal(c.H, ar.p, 2, 2, -10.0, infty);
+         }
+         DSVectorBase<double> row(3);
+         row.add(0, -1.0);
+         row.add(1, 1.0);
+         c.M->addRowReal(LPRowBase<double>(-10.0, row, infty));
+         post(c, F_addRowReal);
+         {
+            Call _(c, F_changeBoundsReal);
+            SoPlex_changeBoundsReal(c.H, alb.p, aub.p, 2);
+         }
+         c.M->changeBoundsReal(toVec(lb), toVec(ub));
+         post(c, F_changeBoundsReal);
+         {
+            Call _(c, F_changeObjReal);
+            SoPlex_changeObjReal(c.H, ao.p, 2);
+         }
+         c.M->changeObjReal(toVec(obj));
+         post(c, F_changeObjReal);
+      }
+      if(c.dead) return;
+      opOptimize(c);
+      if(c.dead) return;
+      expectD("status", (double)(int)c.h().status(), 1.0);
+      OutArr<double> pr(2, padOutputs(c.g), canD());
+      {
+         Call _(c, F_getPrimalReal);
+         SoPlex_getPrimalReal(c.H, pr.p, 2);
+      }
+      expectD("primal0", pr.p[0], 0.0);
+      expectD("primal1", pr.p[1], -10.0);
+      double ov;
+      {
+         Call _(c, F_objValueReal);
+         ov = SoPlex_objValueReal(c.H);
+      }
+      expectD("objective", ov, -10.0);
+      post(c, F_objValueReal);
+   }
+   else
+   {
+      long infl = 1000000;
+      opSetRational(c);
+      opSetIntParam(c, 0, -1);
+      std::string wantPrimal, wantObj;
+      if(part == 2)
+      {
+         std::vector<long> rn = {-1, 1}, rd = {1, 1}, on = {1, 1}, od = {1, 1};
+         InArr<long> arn(rn), ard(rd), aon(on), aod(od);
+         {
+            Call _(c, F_addRowRational);
+            SoPlex_addRowRational(c.H, arn.p, ard.p, 2, 2, 1, 5, infl, 1);
+         }
+         DSVectorBase<Rational> row(3);
+         row.add(0, mkQ(-1, 1));
+         row.add(1, mkQ(1, 1));
+         c.M->addRowRational(LPRowBase<Rational>(mkQ(1, 5), row, mkQ(infl, 1)));
+         post(c, F_addRowRational);
+         {
+            Call _(c, F_changeObjRational);
+            SoPlex_changeObjRational(c.H, aon.p, aod.p, 2);
+         }
+         c.M->changeObjRational(toVecQ(on, od));
+         post(c, F_changeObjRational);
+         wantPrimal = "0 1/5 ";
+         wantObj = "1/5";
+      }
+      else
+      {
+         std::vector<long> n1 = {-1}, d1 = {1}, n2 = {1}, d2 = {1}, ln = {-1}, ld = {5};
+         InArr<long> an1(n1), ad1(d1), an2(n2), ad2(d2), aln(ln), ald(ld);
+         {
+            Call _(c, F_addColRational);
+            SoPlex_addColRational(c.H, an1.p, ad1.p, 1, 1, 1, 5, 0, 1, infl, 1);
+         }
+         DSVectorBase<Rational> c1(2), c2(2);
+         c1.add(0, mkQ(-1, 1));
+         c2.add(0, mkQ(1, 1));
+         c.M->addColRational(LPColBase<Rational>(mkQ(1, 5), c1, mkQ(infl, 1), mkQ(0, 1)));
+         post(c, F_addColRational);
+         {
+            Call _(c, F_addColRational);
+            SoPlex_addColRational(c.H, an2.p, ad2.p, 1, 1, 1, 5, -infl, 1, infl, 1);
+         }
+         c.M->addColRational(LPColBase<Rational>(mkQ(1, 5), c2, mkQ(infl, 1), mkQ(-infl, 1)));
+         post(c, F_addColRational);
+         {
+            Call _(c, F_changeLhsRational);
+            SoPlex_changeLhsRational(c.H, aln.p, ald.p, 1);
+         }
+         c.M->changeLhsRational(toVecQ(ln, ld));
+         post(c, F_changeLhsRational);
+         wantPrimal = "0 -1/5 ";
+         wantObj = "-1/25";
+      }
+      if(c.dead) return;
+      opOptimize(c);
+      if(c.dead) return;
+      expectD("status", (double)(int)c.h().status(), 1.0);
+      VectorBase<Rational> v(2);
+      c.M->getPrimalRational(v);
+      std::string mp = v[0].str() + " " + v[1].str() + " ";
+      if(mp != wantPrimal) viol(c, "ctest", "primal-string", "the C test program expects [" + wantPrimal + "], C++ gives [" + mp + "]");
+      if(c.M->objValueRational().str() != wantObj) viol(c, "ctest", "objective-string", "the C test program expects [" + wantObj + "], C++ gives [" + c.M->objValueRational().str() + "]");
+      bool first = c.g.chance(0.5);
+      if(first) opGetPrimalRationalString(c, true);
+      else opObjValueRationalString(c, true);
+      if(first) opObjValueRationalString(c, true);
+      else opGetPrimalRationalString(c, true);
+   }
+}
+
+static void runCase(long long k, Rng& g)
+{
+   Sink& S = sink();
+   Ctx c(g, k);
+   int sel = (int)(k % 16);
+   std::string desc;
+   if(sel == 7)
+   {
+      int part = (int)((k / 16) % 4);
+      desc = "ctest part " + std::to_string(part);
+      S.begin(k, desc);
+      S.count("cases");
+      S.count("cases.ctest");
+      caseCTest(c, part);
+   }
+   else
+   {
+      static const std::vector<std::string> modes = {"real", "real", "auto", "auto", "rational", "rational", "manual", "real"};
+      std::string mode = modes[(size_t)((k / 16 + k) % (long long)modes.size())];
+      if(sel == 5 || sel == 11)
+      {
+         const auto& R = riskyFns();
+         c.focus = (int)R[(size_t)((k / 16) % (long long)R.size())];
+         c.maxCalls = g.range(8, 16);
+         mode = g.chance(0.5) ? "auto" : "rational";
+         desc = std::string("focus ") + FN[c.focus] + " mode=" + mode;
+         S.count("cases.focus");
+      }
+      else
+      {
+         c.maxCalls = g.range(12, 40);
+         desc = "general mode=" + mode;
+         S.count("cases.general");
+      }
+      S.begin(k, desc);
+      S.count("cases");
+      S.count("mode." + mode);
+      caseGeneral(c, mode);
+   }
+   finishCase(c);
+   if(k < 6) S.sample(Json().str("case", desc).num("calls", c.ncalls).str("sequence", c.seq.substr(0, 400)).done());
+   S.end(k);
+}
+
+// one untracked pass through the main code paths so that lazily initialised library state is not mistaken for a leak
+static void warmUp()
+{
+   Rng g(1, 2, 3);
+   for(int part = 0; part < 4; part++)
+   {
+      SoPlex s;
+      s.setIntParam(SoPlex::VERBOSITY, 0);
+      if(part >= 2) s.setIntParam(SoPlex::SYNCMODE, SoPlex::SYNCMODE_AUTO);
+      if(part == 3)
+      {
+         s.setIntParam(SoPlex::SOLVEMODE, SoPlex::SOLVEMODE_RATIONAL);
+         s.setRealParam(SoPlex::FEASTOL, 0.0);
+         s.setRealParam(SoPlex::OPTTOL, 0.0);
+      }
+      DSVectorBase<double> r(3);
+      r.add(0, 1.0);
+      r.add(1, 2.0);
+      s.addRowReal(LPRowBase<double>(-1.0, r, 4.0));
+      s.optimize();
+      (void)s.objValueRational().str();
+   }
+}
+
+int main(int argc, char** argv)
+{
+   cli.parse(argc, argv);
+   verbose = cli.extra.count("verbose") > 0;
+   Sink& S = sink();
+   S.prop = cli.prop;
+   if(cli.prop != "C20")
+   {
+      fprintf(stderr, "h_capi: unknown property %s\n", cli.prop.c_str());
+      return 2;
+   }
+   warmUp();
+#if VL_ASAN
+   __sanitizer_install_malloc_and_free_hooks(hookMalloc, hookFree);
+#else
+   signal(SIGSEGV, onSignal);
+   signal(SIGABRT, onSignal);
+   signal(SIGFPE, onSignal);
+   signal(SIGBUS, onSignal);
+#endif
+   for(long long k = cli.from; k < cli.to; k++)
+   {
+      Rng g(fnv(cli.prop), cli.seed, (uint64_t)k);
+      runCase(k, g);
+   }
+   S.finish();
+   return 0;
+}
